@@ -36,6 +36,7 @@ pub struct GenOpts {
     pub heap_pct: u64,
     pub targeted_bias: bool,
     pub call_granular: bool,
+    pub multi_iter: bool,
 }
 
 impl GenOpts {
@@ -66,6 +67,7 @@ impl GenOpts {
             heap_pct: 0,
             targeted_bias: false,
             call_granular: false,
+            multi_iter: false,
         }
     }
 }
@@ -186,6 +188,24 @@ pub fn opts_for(prop: &str) -> GenOpts {
             o.pre_pct = 30;
             o.partial_pct = 40;
             o.call_granular = true;
+        }
+        "C19" => {
+            o.kinds = vec![
+                Kind::Slice,
+                Kind::SliceRef,
+                Kind::VecRef,
+                Kind::ArrayRef,
+                Kind::Range,
+                Kind::RangeRef,
+            ];
+            o.w_query = 10;
+            o.w_skip = 4;
+            o.w_stop = 4;
+            o.drain = false;
+            o.pre_pct = 20;
+            o.min_threads = 2;
+            o.max_threads = 3;
+            o.multi_iter = true;
         }
         "C15" => {
             o.kinds = CONSUMING.to_vec();
@@ -400,6 +420,21 @@ pub fn generate_with(prop: &str, o: &GenOpts, base_seed: u64, index: u64) -> Run
         } else if !o.drain && !stopped && rng.chance(1, 2) {
             let extra = rng.range(0, o.extra_max as usize) as u32;
             ops.push(Op::Drain(method(&mut rng, len), extra));
+        }
+        if o.multi_iter && rng.chance(2, 3) {
+            // C19: switch to a clone of the original / a fresh iterator somewhere in the list
+            let k = rng.range(1, 2);
+            for _ in 0..k {
+                let at = rng.below(ops.len() + 1);
+                let m = match rng.below(5) {
+                    0 | 1 => Op::UseClone,
+                    2 | 3 => Op::UseFresh,
+                    _ => Op::UseOriginal,
+                };
+                if !ops[..at].contains(&Op::Stop) {
+                    ops.insert(at, m);
+                }
+            }
         }
         threads.push(ops);
     }
